@@ -87,6 +87,16 @@ impl Parser {
             )]);
         };
 
+        // the names are filled with `value[0]`, `value[1]`, ...: only a list has such elements (a map
+        // whose key type merely accepts an `int`, like `map[int?, T]` or an alias of `int`, does not)
+        if ty.is_list().is_none() {
+            return Err(vec![new_err(
+                value_span,
+                file_name,
+                format!("cannot unpack a value of `{ty}`: only a list can be unpacked"),
+            )]);
+        }
+
         if value_ty.contains_raw_type(&TypeLayout::Native(NativeType::Int)) {
             return Err(vec![new_err(
                 value_span,
